@@ -99,12 +99,15 @@ inductive Out (D : Type)
   deriving DecidableEq, Repr
 
 /-- `FileCache.Get` after a successful `os.ReadFile`, in the order of the code:
-unmarshal, parse base, parse delta if present, expiry of base, expiry of delta if present -/
-def getContent {D C : Type} (cd : Codec D C) (now : Int) (c : C) : Out D :=
-  match cd.decode c with
+unmarshal, parse base, parse delta if present, expiry of base, expiry of delta if present.
+Stated over the two functions it uses (so that it can also be instantiated with oracles that
+obey no law - see the tie to the translated source in Props/C15.lean). -/
+def getContentWith {D C : Type} (decode : C → Option (D × Option D)) (parse : D → Option (Option Int))
+    (now : Int) (c : C) : Out D :=
+  match decode c with
   | none => .err
   | some (b, d) =>
-    match cd.parse b with
+    match parse b with
     | none => .err
     | some nub =>
       match d with
@@ -114,7 +117,7 @@ def getContent {D C : Type} (cd : Codec D C) (now : Int) (c : C) : Out D :=
         | .expired => .miss
         | .fresh => .bundle b none
       | some dd =>
-        match cd.parse dd with
+        match parse dd with
         | none => .err
         | some nud =>
           match checkExpiry now nub with
@@ -125,6 +128,15 @@ def getContent {D C : Type} (cd : Codec D C) (now : Int) (c : C) : Out D :=
             | .invalid => .err
             | .expired => .miss
             | .fresh => .bundle b (some dd)
+
+def getContent {D C : Type} (cd : Codec D C) (now : Int) (c : C) : Out D :=
+  getContentWith cd.decode cd.parse now c
+
+/-- `FileCache.Get` from what `os.ReadFile` found: `none` = `fs.ErrNotExist` -/
+def getOf {D C : Type} (decode : C → Option (D × Option D)) (parse : D → Option (Option Int))
+    (now : Int) : Option C → Out D
+  | none => .miss
+  | some c => getContentWith decode parse now c
 
 /-- operations: `Set(url, nil)`, `Set(url, &Bundle{BaseCRL, DeltaCRL})` (`base = none`: nil
 BaseCRL), `Get(url)` at time `now`, and an external actor replacing the entry file of `url`
@@ -148,10 +160,7 @@ def step (fs : FS C) : Op U D C → FS C × Out D
   | .setNil _ => (fs, .err)
   | .set _ none _ => (fs, .err)
   | .set u (some b) d => (fs.write (filePath root dg u) (cd.encode b d), .ok)
-  | .get u now =>
-    (fs, match fs.read (filePath root dg u) with
-         | none => .miss                       -- fs.ErrNotExist
-         | some c => getContent cd now c)
+  | .get u now => (fs, getOf cd.decode cd.parse now (fs.read (filePath root dg u)))
   | .plant u c => (fs.write (filePath root dg u) c, .ok)
 
 def exec : FS C → List (Op U D C) → FS C × List (Out D)
@@ -180,9 +189,7 @@ def specOut (st : U → Option C) : Op U D C → Out D
   | .set _ none _ => .err
   | .set _ (some _) _ => .ok
   | .plant _ _ => .ok
-  | .get u now => match st u with
-    | none => .miss
-    | some c => getContent cd now c
+  | .get u now => getOf cd.decode cd.parse now (st u)
 
 def specExec : (U → Option C) → List (Op U D C) → List (Out D)
   | _, [] => []
